@@ -83,7 +83,7 @@ def sh(cmd, cwd=None, timeout=3600):
     return p.returncode, p.stdout
 
 
-def sync_and_build(log):
+def sync_and_build(log, tier='quick', pid=None):
     """regenerate PygGen from the repo's working tree, build everything; returns dict(broken=[...])"""
     broken = []
     with Lock():
@@ -95,6 +95,7 @@ def sync_and_build(log):
                 broken.append(dict(kind='translation', name=b['name'], detail=b['detail']))
         except ImportError:
             log['translator'] = 'absent'
+        sh([sys.executable, os.path.join(VERIF, 'tools', 'gen_lean_roots.py')])
         rc, out = sh(['lake', 'build'], cwd=LEAN)
         log['lake_build_rc'] = rc
         if rc != 0:
@@ -109,6 +110,12 @@ def sync_and_build(log):
             rc2, out2 = sh(['lake', 'build', 'pygdriver'], cwd=LEAN)
             log['driver_build_rc'] = rc2
         audit = run_audit(log) if rc == 0 else {}
+        if rc == 0 and tier == 'thorough' and pid:
+            # independent kernel re-check of the compiled property module (and everything it imports)
+            rc3, out3 = sh(['lake', 'env', 'leanchecker', 'PygProofs.Props.' + pid], cwd=LEAN)
+            log['leanchecker_rc'] = rc3
+            if rc3 != 0:
+                broken.append(dict(kind='lean', name='leanchecker PygProofs.Props.' + pid, detail=out3[-400:]))
     return broken, audit
 
 
@@ -308,7 +315,10 @@ def evaluate_cases(mod, cases, timeout):
             if d is None:
                 stats['agree'] += 1
             else:
-                findings.append(Finding('violation', c, 'line %d: %s' % (i, d), impl=irs, model=None))
+                kind = 'violation'
+                if isinstance(d, tuple):
+                    kind, d = d
+                findings.append(Finding(kind, c, 'line %d: %s' % (i, d), impl=irs, model=None))
                 findings[-1].line_index = i
                 findings[-1].model = mr
                 break
@@ -321,7 +331,7 @@ def run_check(pid, tier, seed, replay=None):
     log = {}
     rng = random.Random('%s-%s-%d' % (pid, tier, seed))
     timeout = getattr(mod, 'CALL_TIMEOUT', 5)
-    broken, audit = sync_and_build(log)
+    broken, audit = sync_and_build(log, tier, pid)
 
     # proof obligations of this property
     ns = 'Pyg.Props.%s.' % pid
@@ -338,7 +348,6 @@ def run_check(pid, tier, seed, replay=None):
     if not thms and not my_broken:
         my_broken.append(dict(kind='lean', name=ns + '*', detail='no theorem found for this property'))
 
-    known = load_known()
     out_lines = []
     findings = []
     all_stats = []
@@ -362,31 +371,53 @@ def run_check(pid, tier, seed, replay=None):
                 findings.append(f)
             else:
                 law_count += f  # an int: number of law instances checked
-    # broken obligations -> focused search (10x budget)
+    known = load_known()
+
+    def classify(fs):
+        new_v, new_d, kn = [], [], {}
+        for f in fs:
+            k = match_known(mod, f, known)
+            if k is not None:
+                kn.setdefault(k['id'], (k, f))
+            elif f.kind == 'violation':
+                new_v.append(f)
+            else:
+                new_d.append(f)
+        return new_v, new_d, kn
+
+    new, divs, knowns = classify(findings)
+    # a broken obligation or an unexplained divergence -> focused search for a concrete failing input
     searched = 0
-    if my_broken and not findings and not replay:
+    if (my_broken or divs) and not new and not replay:
         rng2 = random.Random('%s-search-%d' % (pid, seed))
         extra = []
         for _ in range(10 if tier == 'quick' else 3):
             extra.extend(mod.generate(rng2, tier))
         searched = len(extra)
         f2, stats2, _ = evaluate_cases(mod, extra, timeout)
-        findings.extend(f2)
-
-    # classify
-    new, knowns = [], {}
-    for f in findings:
-        k = match_known(mod, f, known)
-        if k is not None:
-            knowns.setdefault(k['id'], (k, f))
-        else:
-            new.append(f)
+        if hasattr(mod, 'laws'):
+            for f in mod.laws(rng2, 'thorough', dict(stats=stats2, divergences=divs)):
+                if isinstance(f, Finding):
+                    f2.append(f)
+                else:
+                    searched += f
+        v2, d2, k2 = classify(f2)
+        new.extend(v2)
+        divs.extend(d2)
+        for kk, vv in k2.items():
+            knowns.setdefault(kk, vv)
     for kid, (k, f) in sorted(knowns.items()):
         out_lines.append('KNOWN-FINDING: property=%s %s [%s]' % (pid, k['text'], kid))
 
     rc = 0
-    replay_paths = []
     os.makedirs(os.path.join(VERIF, 'replays'), exist_ok=True)
+
+    def write_replay(rj):
+        h = hashlib.sha1(json.dumps(rj, sort_keys=True, default=str).encode()).hexdigest()[:12]
+        path = os.path.join('replays', '%s-%s.json' % (pid, h))
+        json.dump(rj, open(os.path.join(VERIF, path), 'w'), indent=1, default=str)
+        return path
+
     if new:
         # report the first few distinct ones, shrunk
         seen = set()
@@ -398,34 +429,32 @@ def run_check(pid, tier, seed, replay=None):
 
             def still_fails(c):
                 ff, _, _ = evaluate_cases(mod, [c], timeout)
-                return any(match_known(mod, x, known) is None for x in ff)
+                return any(x.kind == 'violation' and match_known(mod, x, known) is None for x in ff)
             small = f.case
+            g = f
             try:
-                if f.kind in ('violation', 'divergence') and f.case.get('lines'):
+                if f.case.get('lines') and not f.case.get('tag', '').startswith('law') and still_fails(f.case):
                     small = shrink_case(mod, f.case, still_fails)
+                    ff, _, _ = evaluate_cases(mod, [small], timeout)
+                    g = ff[0] if ff else f
             except Exception:
-                small = f.case
-            ff, _, _ = evaluate_cases(mod, [small], timeout) if small.get('lines') else ([f], None, None)
-            g = ff[0] if ff else f
+                small, g = f.case, f
             rj = dict(property=pid, tier=tier, seed=seed, case=small, shrunk_from=f.case if small is not f.case else None,
                       detail=g.detail, impl_output=g.impl, model_output=g.model,
                       statement_violated=getattr(mod, 'STATEMENT', mod.TITLE),
                       broken_obligation=my_broken or None,
                       replay_cmd='./check %s --replay <this file>' % pid)
-            h = hashlib.sha1(json.dumps(rj, sort_keys=True, default=str).encode()).hexdigest()[:12]
-            path = os.path.join('replays', '%s-%s.json' % (pid, h))
-            json.dump(rj, open(os.path.join(VERIF, path), 'w'), indent=1, default=str)
-            replay_paths.append(path)
-            out_lines.append('VIOLATION property=%s replay=%s' % (pid, path))
+            out_lines.append('VIOLATION property=%s replay=%s' % (pid, write_replay(rj)))
         rc = 1
-    elif my_broken:
-        rj = dict(property=pid, tier=tier, seed=seed, case=None, broken_obligation=my_broken,
-                  detail='proof obligation / correspondence no longer checks; search over %d extra cases found no failing input' % searched,
+    elif my_broken or divs:
+        d0 = divs[0] if divs else None
+        rj = dict(property=pid, tier=tier, seed=seed, case=d0.case if d0 else None,
+                  broken_obligation=my_broken or None,
+                  broken_correspondence=[dict(case=d.case, detail=d.detail, impl_output=d.impl, model_output=d.model) for d in divs[:10]] or None,
+                  detail=('proof obligation / model-to-code correspondence no longer checks; the search over %d further cases '
+                          'and law instances found no input on which the property statement itself fails' % searched),
                   log={k: (v if isinstance(v, (int, str)) else str(v)[:2000]) for k, v in log.items()})
-        h = hashlib.sha1(json.dumps(rj, sort_keys=True, default=str).encode()).hexdigest()[:12]
-        path = os.path.join('replays', '%s-%s.json' % (pid, h))
-        json.dump(rj, open(os.path.join(VERIF, path), 'w'), indent=1, default=str)
-        out_lines.append('VIOLATION property=%s replay=%s no-failing-input-found' % (pid, path))
+        out_lines.append('VIOLATION property=%s replay=%s no-failing-input-found' % (pid, write_replay(rj)))
         rc = 1
 
     # evidence
@@ -451,17 +480,17 @@ def run_check(pid, tier, seed, replay=None):
             samples=samples, corpus_cases=ncorpus, generated_cases=len(gen_cases), law_instances=law_count,
             agree=stats['agree'], model_bad_op=stats['bad_op'], impl_error_kinds=stats['errors'],
             case_kinds=stats['tags'], broken_obligations=my_broken, known_findings=sorted(knowns),
-            extra=getattr(mod, 'EXTRA', {}),
+            extra=getattr(mod, 'EXTRA', {}), leanchecker_rc=log.get('leanchecker_rc'), translator=log.get('translator'),
             exhaustive=bool(getattr(mod, 'EXHAUSTIVE', {}).get(tier, False))),
         assumptions=list(getattr(mod, 'ASSUMPTIONS', [])),
-        wall_s=round(time.time() - t0, 2), violations=len(new) if new else (1 if my_broken else 0))
+        wall_s=round(time.time() - t0, 2), violations=len(new) if new else (1 if (my_broken or divs) else 0))
     if not replay:
         os.makedirs(os.path.join(VERIF, 'evidence'), exist_ok=True)
         json.dump(ev, open(os.path.join(VERIF, 'evidence', pid + '.json'), 'w'), indent=1, default=str)
     for l in out_lines:
         print(l)
-    print('%s %s seed=%d: %d theorems (%d discharged), %d lines on %d cases, %d law instances, %d findings (%d known), %.1fs' %
-          (pid, tier, seed, obligations, discharged, stats['lines'], len(cases), law_count, len(findings), len(findings) - len(new), time.time() - t0))
+    print('%s %s seed=%d: %d theorems (%d discharged), %d lines on %d cases, %d law instances, %d findings (%d known ids), %.1fs' %
+          (pid, tier, seed, obligations, discharged, stats['lines'], len(cases), law_count, len(findings), len(knowns), time.time() - t0))
     return rc
 
 
